@@ -46,7 +46,12 @@ EXPLANATION = (
     "2715648 frame numbers for delta == 1, frame numbers around every carry point for the other deltas of the property; the moduli / "
     "carry-table obligations are then recorded as an open structural proof. Every value stored into a field of the running time fits "
     "the field (bit-field widths included), so the mathematical terms are what the C code computes. "
-    "The Python builtin divmod(a, b) is the pair (a div b, a mod b) of the normal form (projections and tuple unpacking resolved).")
+    "The Python builtin divmod(a, b) is the pair (a div b, a mod b) of the normal form (projections and tuple unpacking resolved). "
+    "R4: the decomposition is a function of the frame number, not of the call history -- objects of static storage duration that "
+    "gsm_fn2gsmtime() names and somebody writes are found from the AST; when a stored component reads one, the function is folded in C "
+    "integer semantics by the checker's own evaluator on witness call sequences (forward and back, across superframe boundaries and "
+    "the hyperframe wrap, the steps of every delta of the property) with the kept objects carried from call to call, and a call that "
+    "stores another value than the decomposition of its own argument is reported; R1 then judges the first call (static initialisers).")
 ASSUMPTIONS = [
     "arithmetic consequences of the verified formulas (round trip for each of the 2715648 frame numbers, agreement of the "
     "incremental and the recomputed time at every carry point) follow by the Chinese remainder argument from the checked "
@@ -55,6 +60,8 @@ ASSUMPTIONS = [
     "inductive hypothesis of l1s_time_inc: on entry fn < 2715648, t1 < 2048, t2 < 26, t3 < 51, tc < 8 and delta_fn <= 2715648 "
     "(ADD_MODULO performs one conditional subtraction, a full reduction only for delta <= modulus)",
     "struct gsm_time is reached through one pointer only (no aliasing of its fields inside the analysed functions)",
+    "state kept by gsm_fn2gsmtime() between calls is refuted on witness call sequences only (C19.R4): state they do not refute gives no "
+    "verdict, it is never accepted",
 ]
 
 F_UTILS = "src/shared/libosmocore/src/gsm/gsm_utils.c"
@@ -1559,10 +1566,11 @@ class CSym:
                 for d in kids(st):
                     if kind(d) != "VarDecl":
                         continue
-                    if d.get("storageClass") == "static":
-                        # a block-scope object of static storage duration: the call does not execute its initialiser, it
-                        # holds what the previous call left there -- it stays the symbol `name` (a rule that judges the
-                        # first call substitutes the initial value itself, see kept_objects / cold_start)
+                    if d.get("storageClass") == "static" and maybe_written(self.tu, {d.get("id")}):
+                        # a block-scope object of static storage duration that somebody writes: the call does not execute
+                        # its initialiser, it holds what the previous call left there -- it stays the symbol `name` (a rule
+                        # that judges the first call substitutes the initial value itself, see kept_objects / cold_start).
+                        # One that nobody writes holds its initialiser for ever: bound below like any initialised local.
                         self.static_locals[d.get("name")] = d
                         continue
                     if d.get("init") and kids(d):
@@ -1840,6 +1848,513 @@ class CFold:
                 raise _Flow("unknown")
 
 
+# ------------------------------------------------------------------------------
+# objects a function keeps between calls, and concrete execution of a small C function in C integer semantics
+# (shared with C07)
+
+def root_name(name):
+    return re.split(r"->|\.|\[", name, 1)[0]
+
+
+def maybe_written(tu, ids):
+    """the ids of `ids` some function of the translation unit uses other than by reading a value out of it (stores, ++, an
+    address taken, the object handed on): only an object that is never written holds its initialiser for ever"""
+    out = set()
+    for fname, fd in tu.functions.items():
+        if not any(kind(c) == "CompoundStmt" for c in kids(fd)):
+            continue
+        for x in walk(tu.body(fd)):
+            if kind(x) != "DeclRefExpr" or x.get("referencedDecl", {}).get("id") not in ids:
+                continue
+            cur, par, sized = x, tu.parent.get(id(x)), False
+            q = par
+            while q is not None and kind(q) != "FunctionDecl":
+                sized = sized or kind(q) == "UnaryExprOrTypeTraitExpr"
+                q = tu.parent.get(id(q))
+            if sized:
+                continue
+            while par is not None and (kind(par) == "ParenExpr" or (kind(par) == "MemberExpr" and not par.get("isArrow")) or (
+                    kind(par) == "ImplicitCastExpr" and par.get("castKind") == "ArrayToPointerDecay") or (
+                    kind(par) == "ArraySubscriptExpr" and kids(par)[0] is cur)):
+                cur, par = par, tu.parent.get(id(par))
+            if not (kind(par) == "ImplicitCastExpr" and par.get("castKind") == "LValueToRValue"):
+                out.add(x["referencedDecl"]["id"])
+    return out
+
+
+def reach_functions(tu, f):
+    """names of the functions of the translation unit (with a body) that executing f can reach through direct calls, f included"""
+    defined = {n: g for n, g in tu.functions.items() if any(kind(c) == "CompoundStmt" for c in kids(g))}
+    seen, todo = {f.get("name")}, [f]
+    while todo:
+        g = todo.pop()
+        for c in walk(tu.body(g)):
+            if kind(c) == "CallExpr":
+                n = ctext(kids(c)[0])
+                if n in defined and n not in seen:
+                    seen.add(n)
+                    todo.append(defined[n])
+    return seen
+
+
+def kept_objects(tu, f):
+    """{name: VarDecl} of the objects of static storage duration that f -- or a function of the same file it calls -- names
+    and that some function of the translation unit may write: block-scope `static` objects of those functions and file-level
+    variables.  Such an object carries a value from one call to the next (state); an object nobody writes holds its
+    initialiser for ever and is a constant, not state.  AnalysisError for a file-level object with external linkage that is
+    not const (another translation unit may write it: what it holds is unknown)."""
+    cand = {}
+    for fn in sorted(reach_functions(tu, f)):
+        for x in walk(tu.body(tu.functions[fn])):
+            if kind(x) != "DeclRefExpr" or x.get("referencedDecl", {}).get("kind") != "VarDecl":
+                continue
+            d = tu.by_id.get(x["referencedDecl"].get("id"))
+            if d is None:
+                continue
+            par = tu.parent.get(id(d))
+            if d.get("storageClass") == "static" and (par is None or kind(par) != "TranslationUnitDecl"):
+                cand.setdefault(d.get("id"), (d.get("name"), d))
+            elif par is not None and kind(par) == "TranslationUnitDecl":
+                cand.setdefault(d.get("id"), (d.get("name"), tu.vars.get(d.get("name"), d)))
+    ids = set(cand)
+    # every declaration of a file-level object (an `extern` declaration in a header and the definition) names the same object
+    by_name = {}
+    for i, (name, d) in cand.items():
+        by_name.setdefault(name, set()).add(i)
+        if kind(tu.parent.get(id(d)) or {}) == "TranslationUnitDecl" or d is tu.vars.get(name):
+            for other in tu.by_id.values():
+                if kind(other) == "VarDecl" and other.get("name") == name and kind(tu.parent.get(id(other)) or {}) == "TranslationUnitDecl":
+                    by_name[name].add(other.get("id"))
+    allids = set().union(*by_name.values()) if by_name else set()
+    dirty = maybe_written(tu, allids)
+    out = {}
+    for i, (name, d) in sorted(cand.items(), key=lambda kv: kv[1][0]):
+        qt = d.get("type", {}).get("qualType", "")
+        file_level = kind(tu.parent.get(id(d)) or {}) == "TranslationUnitDecl"
+        if by_name[name] & dirty:
+            out[name] = d
+        elif file_level and d.get("storageClass") != "static" and "const" not in qt.split():
+            raise AnalysisError("%s() reads `%s`, a file-level object with external linkage that is not const: what it holds "
+                                "is decided outside this translation unit; unclassifiable" % (f.get("name"), name))
+    return out
+
+
+def _decl_init(d):
+    ini = [c for c in kids(d) if kind(c) not in ("", None) and not (kind(c) or "").endswith("Attr")]
+    return ini[-1] if ini and d.get("init") else None
+
+
+def cold_values(tu, kept):
+    """{symbol: constant term} the scalar integer objects of `kept` hold before the first call (the static initialiser,
+    0 without one); members of an aggregate without initialiser are 0 (see cold_start)"""
+    out = {}
+    for name, d in kept.items():
+        ini = _decl_init(d)
+        if _exec_type(d.get("type", {})) is None:
+            continue
+        v = 0 if ini is None else tu.fold(ini)
+        if v is not None:
+            out[V(name)] = C(_convert(v, _exec_type(d.get("type", {}))))
+    return out
+
+
+def cold_start(t, tu, kept):
+    """term t on the first call: the objects kept between calls replaced by what they hold from the static initialiser"""
+    cold = cold_values(tu, kept)
+
+    def leaf(x):
+        if x[0] != "v":
+            return None
+        if x in cold:
+            return cold[x]
+        r = root_name(x[1])
+        if r in kept and r != x[1] and _decl_init(kept[r]) is None:
+            return C(0)
+        return None
+    return renorm(t, leaf) if kept else t
+
+
+_EXEC_INT = {"_Bool": (1, False), "char": (8, True), "signed char": (8, True), "unsigned char": (8, False), "short": (16, True),
+             "unsigned short": (16, False), "int": (32, True), "unsigned int": (32, False), "long long": (64, True),
+             "unsigned long long": (64, False), "int8_t": (8, True), "uint8_t": (8, False), "int16_t": (16, True),
+             "uint16_t": (16, False), "int32_t": (32, True), "uint32_t": (32, False), "int64_t": (64, True),
+             "uint64_t": (64, False)}
+
+
+def _exec_type(t):
+    """(bits, signed) of an integer type clang resolved (typedefs desugared) whose width does not depend on the data model"""
+    if isinstance(t, str):
+        t = {"qualType": t}
+    for qt in (t.get("desugaredQualType"), t.get("qualType")):
+        if qt:
+            r = _EXEC_INT.get(" ".join(w for w in qt.split() if w not in ("const", "volatile")))
+            if r is not None:
+                return r
+    return None
+
+
+def _convert(v, ty):
+    """conversion of an integer value to an integer type: modulo 2^bits (C11 6.3.1.3; the two's complement wrap gcc and
+    clang define for signed targets)"""
+    bits, signed = ty
+    if bits == 1 and not signed:
+        return int(bool(v))
+    v &= (1 << bits) - 1
+    return v - (1 << bits) if signed and v >= 1 << (bits - 1) else v
+
+
+class _NoFold(Exception):
+    pass
+
+
+class _Zeroed(dict):
+    """an aggregate of static storage duration without initialiser: every scalar member is 0 until it is stored"""
+
+
+class CExec:
+    """Concrete execution of a small C function by the checker's own evaluator over the clang AST, in C integer semantics:
+    every operator is evaluated on known integers and its value converted to the type clang resolved for that node (the
+    implicit conversions are nodes of the AST: usual arithmetic conversions, integer promotion, the conversion of an
+    assignment to the type of its target, bit-field widths), `/` and `%` truncate toward zero.  Objects: locals in a frame
+    per call, objects of static storage duration in `self.statics` -- they survive from one call() to the next, which is what
+    makes a call sequence observable --, a struct reached through a pointer parameter is a dict handed in by the caller.
+    Nothing of the repository is compiled or run.  _NoFold for anything outside this vocabulary."""
+    LIMIT = 20000
+
+    def __init__(self, tu):
+        self.tu = tu
+        self.statics = {}
+        self.steps = 0
+        self.depth = 0
+
+    # -- objects
+    def _type(self, n):
+        ty = _exec_type(n.get("type", {}))
+        if ty is None:
+            raise _NoFold("`%s` has the type `%s`" % (ctext(n)[:40], n.get("type", {}).get("qualType", "?")))
+        return ty
+
+    def _initial(self, d):
+        qt = d.get("type", {}).get("desugaredQualType") or d.get("type", {}).get("qualType") or ""
+        ini = _decl_init(d)
+        if "[" in qt:
+            v = self.tu.init_value(ini) if ini is not None else None
+            if isinstance(v, list) and all(isinstance(x, int) and not isinstance(x, bool) for x in v):
+                return list(v)
+            raise _NoFold("array `%s`" % d.get("name"))
+        if re.search(r"\b(struct|union)\b", qt) and "*" not in qt:
+            if ini is not None or re.search(r"\bunion\b", qt):
+                raise _NoFold("initialised aggregate `%s`" % d.get("name"))
+            return _Zeroed()
+        ty = _exec_type(d.get("type", {}))
+        if ty is None:
+            raise _NoFold("`%s` of type `%s`" % (d.get("name"), qt))
+        if ini is None:
+            return 0
+        return _convert(self.expr(ini, {}), ty)
+
+    def _lv(self, n, fr):
+        """(container, key, integer type or None) of an lvalue"""
+        k = kind(n)
+        if k in ("ParenExpr", "ConstantExpr") or (k == "ImplicitCastExpr" and n.get("castKind") == "NoOp"):
+            return self._lv(kids(n)[0], fr)
+        if k == "DeclRefExpr":
+            rd = n.get("referencedDecl", {})
+            i = rd.get("id")
+            if i in fr:
+                return fr, i, _exec_type(n.get("type", {}))
+            d = self.tu.by_id.get(i)
+            if rd.get("kind") != "VarDecl" or d is None:
+                raise _NoFold("`%s`" % ctext(n)[:40])
+            par = self.tu.parent.get(id(d))
+            if par is not None and kind(par) == "TranslationUnitDecl":
+                d = self.tu.vars.get(d.get("name"), d)
+                key = "file:" + d.get("name")
+            elif d.get("storageClass") == "static":
+                key = i
+            else:
+                raise _NoFold("`%s` is read before it is declared" % ctext(n)[:40])
+            if key not in self.statics:
+                self.statics[key] = self._initial(d)
+            return self.statics, key, _exec_type(n.get("type", {}))
+        if k == "MemberExpr":
+            base = kids(n)[0]
+            if n.get("isArrow"):
+                obj = self.expr(base, fr)
+            else:
+                c, key, _ = self._lv(base, fr)
+                obj = c.get(key) if isinstance(c, dict) else c[key]
+                if obj is None and isinstance(c, dict):
+                    obj = c[key] = {}
+            if not isinstance(obj, dict):
+                raise _NoFold("`%s`" % ctext(n)[:40])
+            name = n.get("name")
+            fd = self.tu.by_id.get(n.get("referencedMemberDecl"))
+            ty = _exec_type(n.get("type", {}))
+            if fd is not None and fd.get("isBitfield"):
+                w = self.tu.fold(kids(fd)[0]) if kids(fd) else None
+                if w is None or ty is None:
+                    raise _NoFold("bit-field `%s`" % name)
+                ty = (w, ty[1])
+            if name not in obj and isinstance(obj, _Zeroed):
+                qt = n.get("type", {}).get("desugaredQualType") or n.get("type", {}).get("qualType") or ""
+                if "[" in qt or re.search(r"\bunion\b", qt):
+                    raise _NoFold("`%s`" % ctext(n)[:40])
+                obj[name] = _Zeroed() if re.search(r"\bstruct\b", qt) and "*" not in qt else 0
+            return obj, name, ty
+        if k == "ArraySubscriptExpr":
+            b = kids(n)[0]
+            while kind(b) in ("ParenExpr",) or (kind(b) == "ImplicitCastExpr" and b.get("castKind") in ("ArrayToPointerDecay", "NoOp")):
+                b = kids(b)[0]
+            c, key, _ = self._lv(b, fr)
+            arr = c.get(key) if isinstance(c, dict) else c[key]
+            i = self.expr(kids(n)[1], fr)
+            if not isinstance(arr, list) or not isinstance(i, int) or not 0 <= i < len(arr):
+                raise _NoFold("`%s`" % ctext(n)[:40])
+            return arr, i, _exec_type(n.get("type", {}))
+        raise _NoFold("`%s` as an object" % ctext(n)[:40])
+
+    def _load(self, n, fr):
+        c, key, ty = self._lv(n, fr)
+        v = c.get(key) if isinstance(c, dict) else c[key]
+        if v is None:
+            raise _NoFold("`%s` is read before it is stored" % ctext(n)[:40])
+        return v
+
+    def _store(self, n, v, fr):
+        c, key, ty = self._lv(n, fr)
+        if isinstance(v, int):
+            if ty is None:
+                raise _NoFold("store into `%s` of type `%s`" % (ctext(n)[:40], n.get("type", {}).get("qualType", "?")))
+            v = _convert(v, ty)
+        elif isinstance(c, list):
+            raise _NoFold("store into `%s`" % ctext(n)[:40])
+        c[key] = v
+        return v
+
+    # -- expressions
+    @staticmethod
+    def _arith(op, a, b, ty):
+        if op in ("/", "%"):
+            if b == 0:
+                raise _NoFold("division by zero")
+            q = abs(a) // abs(b)
+            if (a < 0) != (b < 0):
+                q = -q
+            return q if op == "/" else a - b * q
+        if op in ("<<", ">>"):
+            if not 0 <= b < ty[0] or a < 0:
+                raise _NoFold("shift of %d by %d" % (a, b))
+            return a << b if op == "<<" else a >> b
+        return {"+": a + b, "-": a - b, "*": a * b, "&": a & b, "|": a | b, "^": a ^ b}[op]
+
+    _CMP = {"<": lambda a, b: a < b, ">": lambda a, b: a > b, "<=": lambda a, b: a <= b, ">=": lambda a, b: a >= b,
+            "==": lambda a, b: a == b, "!=": lambda a, b: a != b}
+
+    def _int(self, n, fr):
+        v = self.expr(n, fr)
+        if isinstance(v, bool) or not isinstance(v, int):
+            raise _NoFold("`%s` is not an integer value" % ctext(n)[:40])
+        return v
+
+    def expr(self, n, fr):
+        k = kind(n)
+        ks = kids(n)
+        if k in ("IntegerLiteral", "CharacterLiteral"):
+            return int(n["value"])
+        if k in ("ParenExpr", "ConstantExpr"):
+            return self.expr(ks[0], fr)
+        if k in ("ImplicitCastExpr", "CStyleCastExpr"):
+            ck = n.get("castKind")
+            if ck == "LValueToRValue":
+                return self._load(ks[0], fr)
+            if ck == "NoOp":
+                return self.expr(ks[0], fr)
+            if ck == "IntegralCast":
+                return _convert(self._int(ks[0], fr), self._type(n))
+            if ck == "IntegralToBoolean":
+                return int(self._int(ks[0], fr) != 0)
+            if ck == "ToVoid":
+                self.expr(ks[0], fr)
+                return 0
+            raise _NoFold("conversion %s of `%s`" % (ck, ctext(n)[:40]))
+        if k == "DeclRefExpr":
+            if n.get("referencedDecl", {}).get("kind") == "EnumConstantDecl":
+                v = self.tu.enums.get(n["referencedDecl"].get("name"))
+                if v is None:
+                    raise _NoFold("enumerator `%s`" % ctext(n))
+                return v
+            raise _NoFold("`%s`" % ctext(n)[:40])
+        if k == "UnaryExprOrTypeTraitExpr":
+            v = self.tu.fold(n)
+            if v is None:
+                raise _NoFold("`%s`" % ctext(n)[:40])
+            return v
+        if k == "UnaryOperator":
+            op = n.get("opcode")
+            if op in ("++", "--"):
+                old = self._load(ks[0], fr)
+                if not isinstance(old, int):
+                    raise _NoFold("`%s`" % ctext(n)[:40])
+                new = self._store(ks[0], old + (1 if op == "++" else -1), fr)
+                return old if n.get("isPostfix") else new
+            if op == "!":
+                return int(not self._int(ks[0], fr))
+            if op in ("-", "+", "~"):
+                a = self._int(ks[0], fr)
+                return _convert({"-": -a, "+": a, "~": ~a}[op], self._type(n))
+            raise _NoFold("operator %s in `%s`" % (op, ctext(n)[:40]))
+        if k == "BinaryOperator":
+            op = n.get("opcode")
+            if op == "=":
+                return self._store(ks[0], self.expr(ks[1], fr), fr)
+            if op == ",":
+                self.expr(ks[0], fr)
+                return self.expr(ks[1], fr)
+            if op in ("&&", "||"):
+                a = self._int(ks[0], fr)
+                if bool(a) == (op == "||"):
+                    return int(bool(a))
+                return int(bool(self._int(ks[1], fr)))
+            a, b = self._int(ks[0], fr), self._int(ks[1], fr)
+            if op in self._CMP:
+                return int(self._CMP[op](a, b))
+            if op in ("+", "-", "*", "/", "%", "&", "|", "^", "<<", ">>"):
+                ty = self._type(n)
+                return _convert(self._arith(op, a, b, ty), ty)
+            raise _NoFold("operator %s in `%s`" % (op, ctext(n)[:40]))
+        if k == "CompoundAssignOperator":
+            op = n.get("opcode")[:-1]
+            lt = _exec_type(n.get("computeLHSType", {}))
+            rt = _exec_type(n.get("computeResultType", {}))
+            old = self._load(ks[0], fr)
+            if lt is None or rt is None or not isinstance(old, int):
+                raise _NoFold("`%s`" % ctext(n)[:40])
+            v = _convert(self._arith(op, _convert(old, lt), self._int(ks[1], fr), rt), rt)
+            return self._store(ks[0], v, fr)
+        if k == "ConditionalOperator":
+            return self.expr(ks[1] if self._int(ks[0], fr) else ks[2], fr)
+        if k == "CallExpr":
+            name = ctext(ks[0])
+            g = self.tu.functions.get(name)
+            if g is None or not any(kind(c) == "CompoundStmt" for c in kids(g)):
+                raise _NoFold("call of %s()" % name)
+            v = self.call(g, [self.expr(a, fr) for a in ks[1:]])
+            if _exec_type(n.get("type", {})) is not None and isinstance(v, int):
+                return _convert(v, self._type(n))
+            return v
+        raise _NoFold("`%s` (%s)" % (ctext(n)[:40], k))
+
+    # -- statements
+    def call(self, f, args):
+        """run f on the argument values (integers; a dict for the struct a pointer parameter points to); the value returned"""
+        ps = self.tu.fparams(f)
+        if len(ps) != len(args) or f.get("variadic") or self.depth >= 4:
+            raise _NoFold("call of %s()" % f.get("name"))
+        fr = {}
+        for p, a in zip(ps, args):
+            ty = _exec_type(p.get("type", {}))
+            if isinstance(a, int):
+                if ty is None:
+                    raise _NoFold("parameter `%s` of %s()" % (p.get("name"), f.get("name")))
+                a = _convert(a, ty)
+            fr[p.get("id")] = a
+        self.depth += 1
+        try:
+            self.stmt(self.tu.body(f), fr)
+        except _Flow as e:
+            if e.what != "return":
+                raise _NoFold("%s outside a loop" % e.what)
+            return e.value
+        finally:
+            self.depth -= 1
+        return None
+
+    def _tick(self):
+        self.steps += 1
+        if self.steps > self.LIMIT:
+            raise _NoFold("step limit")
+
+    def stmt(self, st, fr):
+        if not st:
+            return
+        self._tick()
+        k = kind(st)
+        ks = kids(st)
+        if k == "CompoundStmt":
+            for c in ks:
+                self.stmt(c, fr)
+        elif k == "NullStmt":
+            pass
+        elif k == "DeclStmt":
+            for d in ks:
+                if kind(d) != "VarDecl":
+                    continue
+                if d.get("storageClass") == "static":
+                    continue            # initialised once, before the first call (see _lv)
+                ini = _decl_init(d)
+                qt = d.get("type", {}).get("desugaredQualType") or d.get("type", {}).get("qualType") or ""
+                if re.search(r"\b(struct|union)\b", qt) and "*" not in qt or "[" in qt:
+                    if ini is not None or "[" in qt or re.search(r"\bunion\b", qt):
+                        raise _NoFold("local aggregate `%s`" % d.get("name"))
+                    fr[d.get("id")] = {}
+                else:
+                    fr[d.get("id")] = None if ini is None else self._conv_decl(self.expr(ini, fr), d)
+        elif k == "ReturnStmt":
+            raise _Flow("return", self.expr(ks[0], fr) if ks else None)
+        elif k == "BreakStmt":
+            raise _Flow("break")
+        elif k == "ContinueStmt":
+            raise _Flow("continue")
+        elif k == "IfStmt":
+            inner = list(st.get("inner", []))
+            has_else = st.get("hasElse", False)
+            if len(inner) != (3 if has_else else 2):
+                raise _NoFold("if with a declaration")
+            if self._int(inner[0], fr):
+                self.stmt(inner[1], fr)
+            elif has_else:
+                self.stmt(inner[2], fr)
+        elif k in ("ForStmt", "WhileStmt", "DoStmt"):
+            if k == "ForStmt":
+                init, cond, inc, body = st["inner"][0], st["inner"][2], st["inner"][3], st["inner"][4]
+            elif k == "WhileStmt":
+                if len(st["inner"]) != 2:
+                    raise _NoFold("while with a declaration")
+                init, cond, inc, body = None, st["inner"][0], None, st["inner"][1]
+            else:
+                init, cond, inc, body = None, st["inner"][1], None, st["inner"][0]
+            if init:
+                self.stmt(init, fr) if kind(init) == "DeclStmt" else self.expr(init, fr)
+            first = True
+            while True:
+                self._tick()
+                if not (k == "DoStmt" and first) and cond and not self._int(cond, fr):
+                    break
+                first = False
+                try:
+                    self.stmt(body, fr)
+                except _Flow as e:
+                    if e.what == "break":
+                        break
+                    if e.what != "continue":
+                        raise
+                if inc:
+                    self.expr(inc, fr)
+        elif k in ("SwitchStmt", "GotoStmt", "LabelStmt", "AsmStmt", "GCCAsmStmt"):
+            raise _NoFold(k)
+        else:
+            self.expr(st, fr)
+
+    def _conv_decl(self, v, d):
+        if not isinstance(v, int):
+            return v
+        ty = _exec_type(d.get("type", {}))
+        if ty is None:
+            raise _NoFold("local `%s` of type `%s`" % (d.get("name"), d.get("type", {}).get("qualType", "?")))
+        return _convert(v, ty)
+
+
 # raw (un-normalised) interval of a C expression in its own type -- used where
 # the normal form hides a bias (x + n) mod n
 
@@ -2032,9 +2547,18 @@ def c_decomposition(L, rule):
     if sym.effects:
         raise AnalysisError("%s(): calls %s; unclassifiable" % (fname, sym.effects[0][1]))
     ren = lambda t: V("FN") if t == V(fnname) else None
+    # objects the function keeps between calls (block-scope / file-level objects of static storage somebody writes): the
+    # formulas are judged here for the first call -- every such object holds its static initialiser --, what a call
+    # computes after other calls is judged by R4 (call sequences with the state carried)
+    kept = kept_objects(tu, f)
     comp = {}
     for fld in ("fn", "t1", "t2", "t3", "tc"):
-        comp[fld] = euclid(renorm(sym.final(out, "%s->%s" % (tname, fld)), ren))
+        raw = sym.final(out, "%s->%s" % (tname, fld))
+        if kept and {root_name(x[1]) for x in subterms(raw) if x[0] == "v"} & set(kept):
+            L.extra.setdefault("decomposition_state", {})["time->" + fld] = \
+                "reads %s, kept between calls: %s judges the first call (static initialisers), C19.R4 the call sequences" % (
+                    ", ".join(sorted({root_name(x[1]) for x in subterms(raw) if x[0] == "v"} & set(kept))), rule)
+        comp[fld] = euclid(renorm(cold_start(raw, tu, kept), ren))
     # C division / remainder: floor semantics need a non-negative dividend that does not wrap
     rng = {fnname: (0, HYPERFRAME - 1), "%s->fn" % tname: (0, HYPERFRAME - 1)}
     ndiv = 0
@@ -2741,6 +3265,131 @@ def _utils_tu(L):
     return TU(L.repo, "libosmo", "src/gsm/gsm_utils.c", L=L)
 
 
+# ------------------------------------------------------------------------------
+# R4 the decomposition is a function of the frame number (no hidden state)
+
+SEQ_POINTS = (0, 1, 25, 26, 50, 51, 100, 1325, 1326, 1327, 2651, 2652, 3977, 3978, 5000, 64 * 1326 - 1, 64 * 1326,
+              1023 * 1326 + 700, 2047 * 1326 - 1, 2047 * 1326, HYPERFRAME - 2, HYPERFRAME - 1)
+
+
+def call_sequences():
+    """(what, [frame numbers]) witness call sequences of gsm_fn2gsmtime(): every ordered pair (a, b) of frame numbers around
+    the carry points as a, b, a (ascending, descending, within and across superframes, across the hyperframe wrap); the
+    steps fn, fn + delta, fn + 2*delta (mod 2715648) of the running GSM time for every delta of the property from start
+    frames around the carry points and the wrap (the recompute path of l1s_time_inc calls the function this way); walks
+    over consecutive frames up and down across a superframe boundary and across the wrap"""
+    for a in SEQ_POINTS:
+        for b in SEQ_POINTS:
+            if a != b:
+                yield "frame numbers going %s" % ("forward, then back" if b > a else "back, then forward again"), [a, b, a]
+    for delta in (1,) + STEP_DELTAS:
+        starts = {0, 1, 1325, 2651, 64 * 1326 - 1, 2047 * 1326 - 1, HYPERFRAME - 1, (HYPERFRAME - delta - 1) % HYPERFRAME,
+                  (HYPERFRAME - delta) % HYPERFRAME, (HYPERFRAME - 2 * delta) % HYPERFRAME, (1326 - delta) % HYPERFRAME}
+        for fn in sorted(starts):
+            yield "the running time stepped by a delta (wrap from 2715647 to 0 included)", \
+                [fn, (fn + delta) % HYPERFRAME, (fn + 2 * delta) % HYPERFRAME]
+    up = list(range(1300, 1361))
+    yield "consecutive frames across a superframe boundary, upwards", up
+    yield "consecutive frames across a superframe boundary, downwards", up[::-1]
+    wrap = list(range(HYPERFRAME - 20, HYPERFRAME)) + list(range(0, 21))
+    yield "consecutive frames across the hyperframe wrap, upwards", wrap
+    yield "consecutive frames across the hyperframe wrap, downwards", wrap[::-1]
+
+
+def r4_stateless(L, tu):
+    """C19.R4 decides a necessary condition of the clauses "decomposition into (T1, T2, T3, TC) and recomposition give back
+    the same frame number" and "stepping ... by an arbitrary delta keeps every component equal to the decomposition of the
+    new frame number": what gsm_fn2gsmtime(time, FN) stores is the decomposition of FN whatever was decomposed before -- a
+    function of its argument, not of the call history.  Decided from the objects, not from the way the code is written:
+    (1) the objects of static storage duration the function (or a function of the file it calls) names and somebody
+    writes are collected from the AST (block-scope statics, file-level variables); none -> nothing survives a call;
+    (2) otherwise the forward-substituted components are inspected: components that read none of these objects do not
+    depend on them (a statistics counter); (3) otherwise the function is folded -- the checker's own evaluator over the
+    clang AST in C integer semantics (CExec), the kept objects carried from call to call, starting from the static
+    initialisers -- on witness call sequences (ascending, descending, across superframe boundaries and the hyperframe wrap,
+    the steps of the running time for every delta of the property): a call that stores another value than the
+    decomposition of its own argument is a counterexample inside the property's domain (a legal history of calls), reported
+    with the pair of calls.  State that the sequences do not refute is not proven harmless: no verdict."""
+    rule = "C19.R4"
+    fname = "gsm_fn2gsmtime"
+    f = tu.func(fname)
+    L.fn(F_UTILS, fname)
+    ps = tu.fparams(f)
+    if len(ps) != 2:
+        raise AnalysisError("%s(): expected (struct gsm_time *, fn), found %d parameters" % (fname, len(ps)))
+    tname = ps[0].get("name")
+    line = tu.line(f)
+    kept = kept_objects(tu, f)
+    key = "gsm_fn2gsmtime(time, FN) stores the decomposition of FN whatever was decomposed before (no object of static " \
+          "storage that somebody writes is read on the way to a stored component)"
+    want = "a function of FN alone"
+    if not kept:
+        L.ob(rule, F_UTILS, fname, key, want, "a function of FN alone (the function names no object that is kept between calls and written)",
+             True, line)
+        return
+    names = ", ".join("`%s`" % k for k in sorted(kept))
+    reads, why = None, None
+    try:
+        sym = CSym(tu)
+        out = sym.run(f)
+        if sym.effects:
+            raise AnalysisError("calls %s()" % sym.effects[0][1])
+        reads = {}
+        for fld in ("fn", "t1", "t2", "t3", "tc"):
+            r = {root_name(x[1]) for x in subterms(sym.final(out, "%s->%s" % (tname, fld))) if x[0] == "v"} & set(kept)
+            if r:
+                reads[fld] = sorted(r)
+    except AnalysisError as e:
+        why = str(e)
+    if reads is not None and not reads:
+        L.ob(rule, F_UTILS, fname, key, want, "a function of FN alone (%s kept between calls, read by no stored component)" % names,
+             True, line)
+        return
+    dep = "time->%s" % ", time->".join("%s reads %s" % (k, ", ".join(v)) for k, v in sorted(reads.items())) if reads else \
+        "the function is not forward-substituted (%s)" % why[:100]
+    # call sequences, the state carried from call to call
+    ex = CExec(tu)
+    total, bad, skipped = 0, {}, None
+    try:
+        for what, seq in call_sequences():
+            ex.statics = {}
+            prev = None
+            for fn in seq:
+                obj = {}
+                ex.steps = 0
+                ex.call(f, [obj, fn])
+                total += 1
+                want_v = {"fn": fn, "t1": fn // 1326, "t2": fn % 26, "t3": fn % 51, "tc": (fn // 51) % 8}
+                diffs = ["time->%s = %d stored, %s = %d" % (k, obj[k], "FN" if k == "fn" else SPEC_TXT[k], want_v[k])
+                         for k in ("fn", "t1", "t2", "t3", "tc") if k in obj and obj[k] != want_v[k]]
+                if diffs:
+                    rec = bad.setdefault(what, [0, None])
+                    rec[0] += 1
+                    if rec[1] is None:
+                        rec[1] = "%s(FN = %d) %s: %s" % (fname, fn, "after %s(FN = %d)" % (fname, prev) if prev is not None
+                                                        else "as the first call", "; ".join(diffs))
+                prev = fn
+    except _NoFold as e:
+        skipped = "the function leaves the evaluator's vocabulary: %s" % e
+    except _Flow as e:
+        skipped = "the function leaves the evaluator's vocabulary: %s" % e.what
+    L.extra["decomposition_call_sequences"] = {"state": sorted(kept), "calls_folded": total, "dependence": dep,
+                                               "status": "skipped: %s" % skipped if skipped else "complete"}
+    if bad:
+        for what in sorted(bad):
+            k, first = bad[what]
+            L.ob(rule, F_UTILS, fname,
+                 "gsm_fn2gsmtime() keeps %s between calls: called in a sequence (%s) every call stores the decomposition of its own "
+                 "frame number (sequences from the static initialisers folded in C integer semantics, the kept objects carried "
+                 "from call to call)" % (names, what),
+                 "T1 = FN div 1326, T2 = FN mod 26, T3 = FN mod 51, TC = (FN div 51) mod 8 of each call's own FN",
+                 "%s -- %s; %d calls of these sequences differ (%d calls folded in all)" % (first, dep, k, total), False, line)
+        return
+    raise AnalysisError("%s() keeps %s between calls and %s; %d calls in witness sequences do not refute that every call stores the "
+                        "decomposition of its own frame number%s, and no proof of it is attempted; unclassifiable" % (
+                            fname, names, dep, total, " (%s)" % skipped if skipped else ""))
+
+
 def run(L, tier):
     repo = Repo(L.repo)
     # every rule group is a stage: a group that cannot be analysed is deferred (exit 2 unless another group
@@ -2752,3 +3401,4 @@ def run(L, tier):
         mods, tu = r1[0], r1[3]
     L.stage(r2_recomposition, L, tu)
     L.stage(r3_increment, L, repo, mods)
+    L.stage(r4_stateless, L, tu)
